@@ -72,6 +72,16 @@ CHECKS = {
          "and the enforcement of each required attribute before open are validated against the specification by TLC.",
     note="file names are abstracted to match signatures computed by an independent glob matcher; a dict attribute counts as set when not None",
     technique="TLA+ model (Select.tla + registry generated from live code) checked with TLC + TLC validation of recorded API selections, declared lists and loaded objects"),
+ "C14": dict(
+    category="model_checking", design_ref="DESIGN.md section 6 C14",
+    text="TLC runs segmentation as a state machine over all bases of <=2 (quick) / 3 (thorough) shells from 9 shell kinds x centers x "
+         "keep_sp and checks SameFunctions, FullySegmented, IdentityShortcut, Idempotent, and the un-restriction laws "
+         "(UnrestrictPreserves: occupations, slices, electron count, spin polarisation, idempotence) over all small restricted "
+         "orbital sets; ~14k (quick) executions of convert_to_segmented / convert_to_unrestricted / prepare_segmented / "
+         "prepare_unrestricted_aminusb are projected (shell structure from tags, identity of returned object, warnings, exception "
+         "class, exact equality of overlap and density matrices) and validated against Segment / Unrestrict by TLC.",
+    note="shell identity recovered from tagged exponents/coefficients; occupations on a 2^-20 grid",
+    technique="TLA+ models (Wavefunction.tla, Orbitals.tla) checked with TLC + TLC validation of recorded conversion calls"),
 }
 NOT_YET = "check not built yet in this round (planned, see DESIGN.md section 6)"
 
